@@ -15,6 +15,7 @@ import (
 	"github.com/reedom/convergen/pkg/vrt"
 )
 
+// maxPosV bounds the symbolic positions.
 const maxPosV = 400
 
 func posVar(name string) token.Pos { return token.Pos(vrt.Int(name, 1, maxPosV)) }
@@ -74,7 +75,11 @@ func C03MarkerLayout() {
 	// optional comment group before A (ends before A's brace)
 	if vrt.Bool("commentBeforeA") {
 		at := posVar("before.pos")
-		n := 1 + vrt.Choose("before.lines", 2)
+		maxLines := 2
+		if vrt.Thorough() {
+			maxLines = 4
+		}
+		n := 1 + vrt.Choose("before.lines", maxLines)
 		g := commentGroup("before", at, n)
 		vrt.Assume(header <= at && g.End()+1+typeText <= la)
 		add(g)
